@@ -465,7 +465,16 @@ def rule_helpers(rep, inst, R="C03.helpers"):
             (rep.holds if src_ok else rep.violates)(R, rl, flab, where=d.where(calls[0]), **({"detail": "assign(<%s as bool>)" % pname} if src_ok else {"detail": "assign() is not given the source"}))
             continue
         if len(stores) != 1 or stores[0].get("opcode") not in ("=", "^=", "|=", "&="):
-            rep.inconclusive(R, rl, flab, where=d.where(f), detail="neither a call of assign(rhs) nor a single store to m_block")
+            # any other spelling (`reset(); if (rhs) set();`, a branch per truth value ...): the body is executed on small concrete models - the
+            # destination and the source may be different blocks, different bits of one block, or THE SAME BIT (r = r2 with r2 a copy of r; the
+            # identity step of a permutation) - and the destination bit must end up with the truth value the source had BEFORE the assignment
+            verdict = bitref_assign_models(d, inst, refs, f, from_ref)
+            if verdict is None:
+                rep.inconclusive(R, rl, flab, where=d.where(f), detail="the body is not a sequence of stores to m_block, calls of set/reset/flip/assign and tests of the source")
+            elif verdict is True:
+                rep.holds(R, rl, flab, where=d.where(f), detail="executed on concrete models: other block, other bit of the same block, the same bit")
+            else:
+                rep.violates(R, rl, flab, where=d.where(f), scenario=verdict[0], detail=verdict[1])
             continue
         sop = stores[0].get("opcode")
         pts = list(range(W)) if W <= 16 else [0, 1, 7, 8, 31, 32, 33, W - 2, W - 1]
@@ -1629,6 +1638,130 @@ def rule_blocks(rep, inst, R="C03.blocks"):
 
 # ---------------------------------------------------------------------------------------------------------------------
 # C03.cover - whole-buffer loops visit every block exactly once
+def bitref_assign_models(d, inst, refs, f, from_ref):
+    """operator=(rhs) of the bit reference executed concretely.  -> True | (scenario, text) | None (not interpretable)"""
+    W, full = inst.W, inst.full
+    members = {m.get("name"): m for m in refs if m.get("name") in ("set", "reset", "flip", "assign") and ir.body(m) is not None}
+    pname = ir.params(f)[0].get("name")
+    pid = ir.params(f)[0].get("id")
+
+    class Stop(Exception):
+        pass
+
+    def truth_of(obj, blocks):
+        return 1 if blocks[obj[0]] & obj[1] else 0
+
+    def ev_expr(n, obj, blocks, env, rhs):
+        """integer value of an expression inside a member of the reference `obj`"""
+        n0 = ir.strip(n)
+        while n0.get("kind") in ("CXXFunctionalCastExpr", "CXXStaticCastExpr", "CStyleCastExpr", "ImplicitCastExpr", "ParenExpr") and ir.ekids(n0):
+            inner = ir.strip(ir.ekids(n0)[-1])
+            if n0.get("castKind") in ("UserDefinedConversion",) or inner.get("kind") == "CXXMemberCallExpr":
+                n0 = inner
+                continue
+            break
+        # the source converted to bool / negated: its truth value NOW
+        if n0.get("kind") == "CXXMemberCallExpr" and rhs is not None:
+            c_ = ir.strip(ir.ekids(n0)[0])
+            base = ir.strip(ir.ekids(c_)[0]) if c_.get("kind") == "MemberExpr" and ir.ekids(c_) else None
+            if base is not None and base.get("kind") == "DeclRefExpr" and (base.get("referencedDecl") or {}).get("id") == pid:
+                nm_ = c_.get("name") or ""
+                if nm_.startswith("operator bool"):
+                    return truth_of(rhs, blocks)
+                if nm_ in ("operator~", "operator!"):
+                    return 1 - truth_of(rhs, blocks)
+                raise ceval.Unknown("member %s of the source" % nm_)
+        if n0.get("kind") == "CXXOperatorCallExpr" and rhs is not None:
+            t_ = ir.sx(n0)
+            if t_[0] == "un" and t_[1] in ("~", "!") and t_[2] == ("ref", pname):
+                return 1 - truth_of(rhs, blocks)
+        if n0.get("kind") == "UnaryOperator" and n0.get("opcode") == "!":
+            return 0 if ev_expr(ir.ekids(n0)[0], obj, blocks, env, rhs) else 1
+        ctx = ceval.Ctx(d, dict(env), {"m_block": blocks[obj[0]], "m_mask": obj[1]})
+        if rhs is not None:
+            ctx.objects = {pname: {"m_block": blocks[rhs[0]], "m_mask": rhs[1]}}
+        return ceval.ev(n, ctx)
+
+    def run(fn, obj, blocks, env, rhs, depth=0):
+        if depth > 3:
+            raise ceval.Unknown("depth")
+
+        def stmts(ss):
+            for st in ss:
+                k = st.get("kind")
+                if k == "CompoundStmt":
+                    stmts(ir.kids(st))
+                    continue
+                if k == "ReturnStmt" or k == "NullStmt":
+                    if k == "ReturnStmt":
+                        raise Stop()
+                    continue
+                if k == "IfStmt":
+                    raw = [c for c in st.get("inner", []) if isinstance(c, dict) and c.get("kind")]
+                    if ev_expr(raw[0], obj, blocks, env, rhs):
+                        stmts([raw[1]])
+                    elif len(raw) > 2:
+                        stmts([raw[2]])
+                    continue
+                n = ir.strip(st)
+                if n.get("kind") in ("BinaryOperator", "CompoundAssignOperator") and (n.get("opcode") or "").endswith("=") and n.get("opcode") not in ("==", "!=", "<=", ">=") \
+                        and member_of_this(ir.ekids(n)[0], "m_block"):
+                    rv = ceval.conv(ev_expr(ir.ekids(n)[1], obj, blocks, env, rhs), inst.btype)
+                    cur = blocks[obj[0]]
+                    op = n.get("opcode")
+                    blocks[obj[0]] = {"=": rv, "^=": cur ^ rv, "|=": cur | rv, "&=": cur & rv}.get(op, None)
+                    if blocks[obj[0]] is None:
+                        raise ceval.Unknown("store %s" % op)
+                    blocks[obj[0]] &= full
+                    continue
+                if n.get("kind") == "CXXMemberCallExpr" and this_call(n, set(members)):
+                    nm_ = [k_ for k_ in members if this_call(n, {k_})][0]
+                    callee = members[nm_]
+                    env2 = {}
+                    for p_, a_ in zip(ir.params(callee), ir.ekids(n)[1:]):
+                        env2[p_.get("id")] = ev_expr(a_, obj, blocks, env, rhs)
+                    try:
+                        run(callee, obj, blocks, env2, None, depth + 1)
+                    except Stop:
+                        pass
+                    continue
+                if n.get("kind") == "ConditionalOperator":
+                    kk = ir.ekids(n)
+                    stmts([kk[1] if ev_expr(kk[0], obj, blocks, env, rhs) else kk[2]])
+                    continue
+                raise ceval.Unknown("statement %s" % k)
+        stmts(ir.kids(ir.body(fn)))
+
+    pts = [0, 1, W - 1] if W > 2 else [0, 1]
+    try:
+        for p_ in pts:
+            for pattern in (0, full, 0xAAAAAAAAAAAAAAAA & full, 0x5555555555555555 & full):
+                if from_ref:
+                    scen = [("another block", "B", q_) for q_ in pts] + [("another bit of the same block", "A", q_) for q_ in pts if q_ != p_] + [("the same bit", "A", p_)]
+                else:
+                    scen = [("false", None, 0), ("true", None, 1)]
+                for what, sblk, q_ in scen:
+                    for spattern in ((0, full, 0xAAAAAAAAAAAAAAAA & full) if from_ref and sblk == "B" else (None,)):
+                        blocks = {"A": pattern, "B": spattern if spattern is not None else 0}
+                        this = ("A", 1 << p_)
+                        rhs = (sblk, 1 << q_) if from_ref else None
+                        want_truth = truth_of(rhs, blocks) if from_ref else q_
+                        before = dict(blocks)
+                        env = {} if from_ref else {pid: q_}
+                        try:
+                            run(f, this, blocks, env, rhs)
+                        except Stop:
+                            pass
+                        wantA = (before["A"] | (1 << p_)) if want_truth else (before["A"] & ~(1 << p_) & full)
+                        if blocks["A"] != wantA or blocks["B"] != before["B"]:
+                            return ("destination bit %d, source: %s%s" % (p_, what, (" (bit %d)" % q_) if from_ref else ""),
+                                    "destination block %#x, source %s: the destination block becomes %#x, expected %#x (the bit must take the truth value the source had before "
+                                    "the assignment, nothing else may change)" % (before["A"], "true" if want_truth else "false", blocks["A"], wantA))
+    except (ceval.Unknown, ceval.UB, IndexError, KeyError, TypeError):
+        return None
+    return True
+
+
 def tail_block_mask(d, inst, fn, loop, names, linit, sizes=None):
     """-> True if the last block is read after `loop` and whatever mask is applied to it keeps all the bits below size(); a text if a bit is lost;
     None if the treatment is not recognised"""
